@@ -79,6 +79,7 @@ type Contract struct {
 	Callbacks   map[string]string // parameter name -> ghost set name
 	Reveal      []string
 	Traverses   []Traverse
+	Resets      []Reset
 	Except      []string
 	Inline      []string         // callee name suffixes that must be inlined regardless of size
 	NoInline    []string
@@ -127,6 +128,7 @@ type Engine struct {
 	heapAlias   map[string]string
 	readLog     map[string]bool   // when non-nil, heapByName records the heaps it is asked for
 	opaqueSig   map[string]string // opaque predicate -> declared uninterpreted symbol
+	sumInst     map[string]bool   // ghostsum instances whose defining axioms were emitted
 	derivedCache map[*Contract][2][]Clause
 	bitsSyms    map[string]string // float parameter term -> symbol holding its bit pattern (math.Float32bits)
 }
@@ -135,6 +137,7 @@ type predDef struct {
 	params []string
 	body   string
 	opaque bool
+	sum    bool // prefix-sum ghost function (see ghostsum)
 }
 
 // State maps heap names to their current SMT term. A heap that is not in the
@@ -765,6 +768,31 @@ func (e *Engine) binop(op token.Token, x, y string, xt, yt types.Type) string {
 		case token.GEQ:
 			return fmt.Sprintf("(>= %s %s)", x, y)
 		}
+		// bit operations in int mode: constants shifts and masks are arithmetic;
+		// a general | gets true-but-partial facts (bounds, and exact value when the
+		// operands occupy disjoint bit ranges split at 8/16/24/32)
+		if c, ok := intConst(y); ok && (op == token.SHL || op == token.SHR) {
+			if op == token.SHL {
+				return wrap(fmt.Sprintf("(* %s %s)", x, pow2(int(c))))
+			}
+			if !signed {
+				return fmt.Sprintf("(div %s %s)", x, pow2(int(c)))
+			}
+		}
+		if c, ok := intConst(y); ok && op == token.AND && c >= 0 && c&(c+1) == 0 && !signed {
+			return fmt.Sprintf("(mod %s %d)", x, c+1)
+		}
+		if op == token.OR && !signed {
+			r := e.declare("or", "Int")
+			facts := []string{fmt.Sprintf("(>= %s %s)", r, x), fmt.Sprintf("(>= %s %s)", r, y), fmt.Sprintf("(<= %s (+ %s %s))", r, x, y)}
+			for _, k := range []int{8, 16, 24, 32} {
+				p := pow2(k)
+				facts = append(facts, fmt.Sprintf("(=> (and (= (mod %s %s) 0) (< %s %s)) (= %s (+ %s %s)))", x, p, y, p, r, x, y))
+				facts = append(facts, fmt.Sprintf("(=> (and (= (mod %s %s) 0) (< %s %s)) (= %s (+ %s %s)))", y, p, x, p, r, x, y))
+			}
+			e.decls = append(e.decls, "(assert (and "+strings.Join(facts, " ")+"))")
+			return r
+		}
 		panic(fmt.Sprintf("int-mode binop %v unsupported", op))
 	}
 	cmp := func(s, u string) string {
@@ -861,4 +889,13 @@ func (e *Engine) idxLe(a, b string) string {
 		return fmt.Sprintf("(<= %s %s)", a, b)
 	}
 	return fmt.Sprintf("(bvule %s %s)", a, b)
+}
+
+// intConst parses an SMT integer literal term.
+func intConst(t string) (int64, bool) {
+	var v int64
+	if _, err := fmt.Sscanf(t, "%d", &v); err == nil && fmt.Sprint(v) == t {
+		return v, true
+	}
+	return 0, false
 }
